@@ -126,6 +126,8 @@ def stepCmp (toks : List String) : String :=
     joinElems ((sortServicesByCreationTime ((elems l).filterMap parseSvc)).map (fun s => toString s.id))
   | ["cfg", l] =>
     showGroups (groupTies (fun a b => cfgCmp a b == .eq) (·.id) (sortConfigByCreationTime ((elems l).filterMap parseCfg)))
+  | ["gwcfg", l] =>
+    showGroups (groupTies (fun a b => gwCfgCmp a b == .eq) (·.id) (sortGatewayConfigs ((elems l).filterMap parseCfg)))
   | ["dr", l] =>
     showGroups (groupTies (fun a b => drCmp a b == .eq) (·.id) (sortConfigBySelectorAndCreationTime ((elems l).filterMap parseCfg)))
   | ["wl", l] =>
